@@ -4,7 +4,7 @@
 
 use super::fmt::{flat_join, join, Span, TokenFmt};
 use super::{DocString, NumberParts};
-use crate::ast::{starts_with_sign, BinOpType, Expr, Precedence, UnaryOpType};
+use crate::ast::{escape_quote, starts_with_sign, BinOpType, Expr, Precedence, UnaryOpType};
 use crate::output::Digits;
 use chrono::{DateTime, TimeZone};
 use serde_derive::Serialize;
@@ -189,7 +189,7 @@ impl ExprReply {
             }
             match *expr {
                 Expr::Unit { ref name } => parts.push(ExprParts::Unit { name: name.clone() }),
-                Expr::Quote { ref string } => literal!(format!("'{}'", string)),
+                Expr::Quote { ref string } => literal!(format!("'{}'", escape_quote(string))),
                 Expr::Const { ref value } => {
                     let (_exact, val) = value.to_string(10, Digits::Default);
                     literal!(val)
